@@ -70,7 +70,11 @@ func (x *Exec) load(s *State, p *PtrVal, t types.Type) (Value, bool) {
 		}
 	}
 	if r == nil {
-		x.fail("load through a pointer without live alternatives")
+		// every alternative of the pointer has a false guard: the value is undefined on this path,
+		// which is sound only if the path itself is infeasible — left to the solver to confirm
+		x.oblige(s, "escape", "pointer without live alternatives dereferenced (path must be infeasible)", s.G)
+		s.dead = true
+		return nil, false
 	}
 	return r, true
 }
@@ -113,6 +117,11 @@ func (x *Exec) fieldAddr(s *State, p *PtrVal, field int) (Value, bool) {
 		copy(np, a.Path)
 		np[len(a.Path)] = field
 		out.Alts = append(out.Alts, PtrAlt{G: a.G, Obj: a.Obj, Path: np})
+	}
+	if len(out.Alts) == 0 {
+		x.oblige(s, "escape", "field of a pointer without live alternatives (path must be infeasible)", s.G)
+		s.dead = true
+		return nil, false
 	}
 	return out, true
 }
@@ -290,35 +299,57 @@ func (x *Exec) keyEq(a, b Value) *Term {
 	return x.valueEq(a, b)
 }
 
-func (x *Exec) mapObj(s *State, m *PtrVal) (*MapObj, int) {
-	if len(m.Alts) != 1 {
-		// pick the single non-nil alternative if the others are nil
-		var live []PtrAlt
-		for _, a := range m.Alts {
-			if a.Obj != 0 {
-				live = append(live, a)
-			}
-		}
-		if len(live) != 1 {
-			x.fail("map value with %d live alternatives", len(live))
-		}
-		return s.Heap[live[0].Obj].(*MapObj), live[0].Obj
-	}
-	a := m.Alts[0]
-	if a.Obj == 0 {
-		return nil, 0
-	}
-	return s.Heap[a.Obj].(*MapObj), a.Obj
+type mapAlt struct {
+	g   *Term
+	obj *MapObj
+	id  int
 }
 
-// mapLookup returns (value, ok).
-func (x *Exec) mapLookup(s *State, m *PtrVal, k Value, vt types.Type) (Value, *Term) {
-	tb := x.tb
-	mo, _ := x.mapObj(s, m)
-	z := x.zero(vt)
-	if mo == nil {
-		return z, tb.False
+// mapAlts lists the live (non-nil) alternatives of a map value.
+func (x *Exec) mapAlts(s *State, m *PtrVal) []mapAlt {
+	var out []mapAlt
+	for _, a := range m.Alts {
+		if a.Obj == 0 || a.G.IsFalse() {
+			continue
+		}
+		mo, ok := s.Heap[a.Obj].(*MapObj)
+		if !ok {
+			x.fail("map pointer to %T", s.Heap[a.Obj])
+		}
+		out = append(out, mapAlt{a.G, mo, a.Obj})
 	}
+	return out
+}
+
+// mapObj returns the single map object behind m (used by len on unmerged maps).
+func (x *Exec) mapObj(s *State, m *PtrVal) (*MapObj, int) {
+	al := x.mapAlts(s, m)
+	if len(al) == 0 {
+		return nil, 0
+	}
+	if len(al) > 1 {
+		return x.mergedMap(al), 0
+	}
+	return al[0].obj, al[0].id
+}
+
+// mergedMap is a read-only view of a multi-alternative map value.
+func (x *Exec) mergedMap(al []mapAlt) *MapObj {
+	out := &MapObj{KT: al[0].obj.KT, VT: al[0].obj.VT}
+	for _, a := range al {
+		for _, e := range a.obj.Entries {
+			p := x.tb.And(a.g, e.Present)
+			if p.IsFalse() {
+				continue
+			}
+			out.Entries = append(out.Entries, MapEntry{Key: e.Key, Present: p, Val: e.Val})
+		}
+	}
+	return out
+}
+
+func (x *Exec) lookupIn(mo *MapObj, k Value, z Value) (Value, *Term) {
+	tb := x.tb
 	var r Value = z
 	found := tb.False
 	for i := len(mo.Entries) - 1; i >= 0; i-- {
@@ -336,46 +367,94 @@ func (x *Exec) mapLookup(s *State, m *PtrVal, k Value, vt types.Type) (Value, *T
 	return r, found
 }
 
+// mapLookup returns (value, ok).
+func (x *Exec) mapLookup(s *State, m *PtrVal, k Value, vt types.Type) (Value, *Term) {
+	tb := x.tb
+	z := x.zero(vt)
+	al := x.mapAlts(s, m)
+	if len(al) == 0 {
+		return z, tb.False
+	}
+	if len(al) == 1 {
+		return x.lookupIn(al[0].obj, k, z)
+	}
+	var r Value = z
+	found := tb.False
+	for _, a := range al {
+		v, ok := x.lookupIn(a.obj, k, z)
+		r = x.ite(a.g, v, r)
+		found = tb.Ite(a.g, ok, found)
+	}
+	return r, found
+}
+
 func (x *Exec) mapUpdate(s *State, m *PtrVal, k, v Value) bool {
 	tb := x.tb
 	if !x.panicIf(s, x.ptrIsNil(m), "assignment to entry in nil map") {
 		return false
 	}
-	mo, id := x.mapObj(s, m)
-	n := &MapObj{KT: mo.KT, VT: mo.VT, Entries: make([]MapEntry, 0, len(mo.Entries)+1)}
-	exists := tb.False
-	for _, e := range mo.Entries {
-		hit := tb.And(e.Present, x.keyEq(e.Key, k))
-		if hit.IsFalse() {
-			n.Entries = append(n.Entries, e)
-			continue
+	al := x.mapAlts(s, m)
+	single := len(al) == 1
+	for _, a := range al {
+		g := a.g
+		if single {
+			g = tb.True
 		}
-		exists = tb.Or(exists, hit)
-		n.Entries = append(n.Entries, MapEntry{Key: e.Key, Present: e.Present, Val: x.ite(hit, v, e.Val)})
+		mo := a.obj
+		n := &MapObj{KT: mo.KT, VT: mo.VT, Entries: make([]MapEntry, 0, len(mo.Entries)+1)}
+		exists := tb.False
+		sameDone := false
+		for _, e := range mo.Entries {
+			if x.sameKey(e.Key, k) {
+				// syntactically the same key: one entry carries the binding afterwards
+				if sameDone {
+					p := tb.And(e.Present, tb.Not(g))
+					if !p.IsFalse() {
+						n.Entries = append(n.Entries, MapEntry{Key: e.Key, Present: p, Val: e.Val})
+					}
+					continue
+				}
+				sameDone = true
+				n.Entries = append(n.Entries, MapEntry{Key: e.Key, Present: tb.Or(e.Present, g), Val: x.ite(g, v, e.Val)})
+				continue
+			}
+			hit := tb.And(e.Present, x.keyEq(e.Key, k))
+			if hit.IsFalse() {
+				n.Entries = append(n.Entries, e)
+				continue
+			}
+			exists = tb.Or(exists, hit)
+			n.Entries = append(n.Entries, MapEntry{Key: e.Key, Present: e.Present, Val: x.ite(tb.And(g, hit), v, e.Val)})
+		}
+		if !sameDone && !exists.IsTrue() {
+			n.Entries = append(n.Entries, MapEntry{Key: k, Present: tb.And(g, tb.Not(exists)), Val: v})
+		}
+		s.Heap[a.id] = n
 	}
-	if !exists.IsTrue() {
-		n.Entries = append(n.Entries, MapEntry{Key: k, Present: tb.Not(exists), Val: v})
-	}
-	s.Heap[id] = n
 	return true
 }
 
 func (x *Exec) mapDelete(s *State, m *PtrVal, k Value) {
 	tb := x.tb
-	mo, id := x.mapObj(s, m)
-	if mo == nil {
-		return
-	}
-	n := &MapObj{KT: mo.KT, VT: mo.VT}
-	for _, e := range mo.Entries {
-		hit := tb.And(e.Present, x.keyEq(e.Key, k))
-		p := tb.And(e.Present, tb.Not(hit))
-		if p.IsFalse() {
-			continue
+	al := x.mapAlts(s, m)
+	single := len(al) == 1
+	for _, a := range al {
+		g := a.g
+		if single {
+			g = tb.True
 		}
-		n.Entries = append(n.Entries, MapEntry{Key: e.Key, Present: p, Val: e.Val})
+		mo := a.obj
+		n := &MapObj{KT: mo.KT, VT: mo.VT}
+		for _, e := range mo.Entries {
+			hit := tb.AndN(g, e.Present, x.keyEq(e.Key, k))
+			p := tb.And(e.Present, tb.Not(hit))
+			if p.IsFalse() {
+				continue
+			}
+			n.Entries = append(n.Entries, MapEntry{Key: e.Key, Present: p, Val: e.Val})
+		}
+		s.Heap[a.id] = n
 	}
-	s.Heap[id] = n
 }
 
 func (x *Exec) mapLen(s *State, m *PtrVal) *Term {
@@ -443,16 +522,25 @@ func (x *Exec) rangeNext(s *State, f *Frame, in *ssa.Next, itv Value) (Value, bo
 	// map
 	mo := ov.V.(*MapObj)
 	pos := rk.Pos
+	// components the program never extracts have an invalid type: keep them uniform
+	fix := func(tv *TupleVal) *TupleVal {
+		for i := 1; i <= 2; i++ {
+			if b, ok := tt.At(i).Type().(*types.Basic); ok && b.Kind() == types.Invalid {
+				tv.E[i] = tb.False
+			}
+		}
+		return tv
+	}
 	for pos < len(mo.Entries) && mo.Entries[pos].Present.IsFalse() {
 		pos++
 	}
 	if pos >= len(mo.Entries) {
-		return &TupleVal{E: []Value{tb.False, x.zero(tt.At(1).Type()), x.zero(tt.At(2).Type())}}, true
+		return fix(&TupleVal{E: []Value{tb.False, x.zero(tt.At(1).Type()), x.zero(tt.At(2).Type())}}), true
 	}
 	e := mo.Entries[pos]
 	if e.Present.IsTrue() {
 		x.set(f, in.Iter, &OpaqueVal{Kind: "range", X: rangeKey{"map", pos + 1}, V: mo})
-		return &TupleVal{E: []Value{tb.True, e.Key, e.Val}}, true
+		return fix(&TupleVal{E: []Value{tb.True, e.Key, e.Val}}), true
 	}
 	// entries with symbolic presence: yield the first present entry from pos on and consume it
 	okAny := tb.False
@@ -476,7 +564,7 @@ func (x *Exec) rangeNext(s *State, f *Frame, in *ssa.Next, itv Value) (Value, bo
 		ne[i].Present = tb.And(ne[i].Present, tb.Not(first))
 	}
 	x.set(f, in.Iter, &OpaqueVal{Kind: "range", X: rangeKey{"map", pos}, V: &MapObj{Entries: ne, KT: mo.KT, VT: mo.VT}})
-	return &TupleVal{E: []Value{okAny, k, v}}, true
+	return fix(&TupleVal{E: []Value{okAny, k, v}}), true
 }
 
 // ---------- type assertions ----------
